@@ -79,9 +79,9 @@ func c11RsaScenarios(t testing.TB) []sched.Scenario {
 		}
 	}
 	return []sched.Scenario{
-		{Name: "tssrsa/Sign||Sign", Setup: fresh, Threads: []func(interface{}) interface{}{signer(false, false), signer(false, false)}},
-		{Name: "tssrsa/SignBlindParallel||Sign", Setup: fresh, Threads: []func(interface{}) interface{}{signer(true, true), signer(false, false)}},
-		{Name: "tssrsa/SignBlindParallel||SignBlind", Setup: fresh, Threads: []func(interface{}) interface{}{signer(true, true), signer(true, false)}},
+		{Cost: 60, Name: "tssrsa/Sign||Sign", Setup: fresh, Threads: []func(interface{}) interface{}{signer(false, false), signer(false, false)}},
+		{Cost: 60, Name: "tssrsa/SignBlindParallel||Sign", Setup: fresh, Threads: []func(interface{}) interface{}{signer(true, true), signer(false, false)}},
+		{Cost: 60, Name: "tssrsa/SignBlindParallel||SignBlind", Setup: fresh, Threads: []func(interface{}) interface{}{signer(true, true), signer(true, false)}},
 	}
 }
 
